@@ -127,7 +127,7 @@ let () =
       let v = match kind with
         | "repo" -> valid_repository s
         | "tag" -> valid_tag s
-        | "digest" -> valid_digest avail s
+        | "digest" -> valid_digest_gen avail s
         | _ -> failwith "component" in
       Printf.printf "%s VALID %s\n" id (if v then "true" else "false")
     | [] -> ()
